@@ -491,6 +491,16 @@ impl Kernel {
             if reg.len == 0 {
                 continue;
             }
+            if reg.write {
+                for (a, l, what) in &self.held_ranges {
+                    if reg.addr < a + l && *a < reg.addr + reg.len {
+                        violation(
+                            "notify.event-reused",
+                            format!("{name}: the kernel is asked to write over {what}, which the application can still use"),
+                        );
+                    }
+                }
+            }
             if !self.check_region(reg.what, reg.addr, reg.len, name) {
                 continue;
             }
